@@ -1,150 +1,17 @@
 #!/usr/bin/env python3
-"""Translate constants from the jj source into Lean (run by `check` on every run).
+"""Regenerate lean/JjModel/Generated/*.lean from the Rust sources in /repo (run by ./check first).
 
-Table-driven: each entry is (source file under /repo, regex with one group capturing a Rust
-constant integer expression, Lean name, Lean type, output module).  The captured expression is
-evaluated (integer literals, `<<`, `>>`, `*`, `+`, `-`, parentheses only) and written as
-`def <name> : <type> := <value>` into `lean/JjModel/Generated/<module>.lean`, namespace
-`JjModel.Generated`.  Idempotent (files are rewritten only when their content changes).
-Exit status is non-zero when a source file or pattern has disappeared or an expression is not
-a constant of the supported form — the model would otherwise silently keep a stale value.
-
-A third table, CUSTOM, holds structural extractors (functions): e.g. whether
-`TableStore::get_head_locked` guards its head removals by a name comparison
-(`Generated/TableGuard.lean`, `def tableGuardEq : Bool`), and checks that the add-before-remove
-order and equal-name guards assumed by the head-set protocol models are still in the source.
+Dispatcher only: every module tools/translate_parts/<name>.py provides
+    run(repo: str, outdir: str, write_if_changed) -> list[str]      # problems (empty = fine)
+and is table-driven, idempotent (writes only on change) and reports a problem when a source pattern
+it is tied to has disappeared.  Exit status is non-zero when any part reports a problem.
 """
-import ast, os, re, sys
+import importlib.util, os, sys
 
-REPO = os.environ.get("JJ_REPO", "/repo")
-ROOT = os.path.join(os.path.dirname(os.path.abspath(__file__)), "..", "lean", "JjModel", "Generated")
+ROOT = os.path.dirname(os.path.abspath(__file__))
+REPO = os.environ.get("JJ_REPO", os.environ.get("JJ_VERIF_REPO", "/repo"))
+OUT = os.path.join(ROOT, "..", "lean", "JjModel", "Generated")
 
-# (file, regex, lean name, lean type, output module)
-TABLE = [
-    ("lib/src/eol.rs", r"const\s+PROBE_LIMIT\s*:\s*u64\s*=\s*([^;]+);", "eolProbeLimit", "Nat", "ConstsEol"),
-]
-
-# Rule texts that several grammars must share verbatim (one Lean model stands for all of them):
-# (rule names, files, Lean name, output module).  The normalised text is written to the module as
-# documentation; the translator fails if the files disagree or a rule is missing.
-SAME_RULES = [
-    (["string_escape", "string_content_char", "string_content", "string_literal",
-      "raw_string_content", "raw_string_literal"],
-     ["lib/src/revset.pest", "lib/src/fileset.pest", "cli/src/template.pest"],
-     "stringLiteralRules", "ConstsDsl"),
-]
-
-
-# --------------------------------------------------------------------------------------------------
-# Structural facts of the source that a model assumes or takes as a Boolean parameter
-# (C21 guard of get_head_locked; C14/C21 add-before-remove order and equal-name guards).
-# Each entry of CUSTOM is a function returning (file name in Generated/, text) or None (check only);
-# it raises PatternVanished when the source shape it is tied to has disappeared.
-class PatternVanished(Exception):
-    pass
-
-
-def read(rel):
-    try:
-        with open(os.path.join(REPO, rel), encoding="utf-8") as f:
-            return f.read()
-    except OSError as e:
-        raise PatternVanished(f"{rel}: cannot read ({e})")
-
-
-def fn_body(src, header_re, what):
-    """text of the function whose header matches header_re (brace matching from the first '{')"""
-    m = re.search(header_re, src)
-    if not m:
-        raise PatternVanished(f"{what}: function header /{header_re}/ not found")
-    i = src.index("{", m.end() - 1) if src[m.end() - 1] != "{" else m.end() - 1
-    depth, j = 0, i
-    while j < len(src):
-        if src[j] == "{":
-            depth += 1
-        elif src[j] == "}":
-            depth -= 1
-            if depth == 0:
-                return src[i:j + 1]
-        j += 1
-    raise PatternVanished(f"{what}: unbalanced braces")
-
-
-def require(cond, msg):
-    if not cond:
-        raise PatternVanished(msg)
-
-
-# --------------------------------------------------------------------------------------------------
-# C21: does TableStore::get_head_locked guard the removal of tables[1..] by a name comparison with
-# the merged table?  (F8: without it the head just written is deleted when the names collide.)
-def gen_table_guard():
-    rel = "lib/src/stacked_table.rs"
-    src = read(rel)
-    body = fn_body(src, r"pub fn get_head_locked\s*\(\s*&self\s*\)[^{]*\{", "get_head_locked")
-    require(re.search(r"let\s+merged_table\s*=\s*self\.save_table\(merged_table\)", body),
-            "get_head_locked: `let merged_table = self.save_table(merged_table)` not found")
-    m = re.search(r"for\s+(\w+)\s+in\s+&tables\[1\.\.\]\s*\{", body[body.index("self.save_table(merged_table)"):])
-    require(m, "get_head_locked: loop `for table in &tables[1..]` after save_table not found")
-    tail = body[body.index("self.save_table(merged_table)"):]
-    loop = fn_body(tail, r"for\s+\w+\s+in\s+&tables\[1\.\.\]\s*\{", "get_head_locked removal loop")
-    var = m.group(1)
-    require(re.search(r"self\.remove_head\(\s*&?\s*" + var + r"\s*\)", loop),
-            "get_head_locked: `self.remove_head(table)` not found in the removal loop")
-    cmp_ = (r"(?:" + var + r"\.name(?:\(\))?\s*(?:!=|==)\s*merged_table\.name(?:\(\))?"
-            r"|merged_table\.name(?:\(\))?\s*(?:!=|==)\s*" + var + r"\.name(?:\(\))?)")
-    guarded = re.search(cmp_, loop) is not None
-    # the parent-removal guard of save_table and its add-before-remove order are assumed by the model
-    st = fn_body(src, r"pub fn save_table\s*\([^)]*\)[^{]*\{", "save_table")
-    require(re.search(r"parent_table\.name\s*!=\s*table\.name", st),
-            "save_table: guard `parent_table.name != table.name` not found")
-    a, r_ = st.find("self.add_head("), st.find("self.remove_head(")
-    require(0 <= a < r_, "save_table: `add_head` no longer precedes `remove_head`")
-    text = (
-        "-- GENERATED by tools/translate.py from /repo/lib/src/stacked_table.rs — do not edit\n"
-        "/-! Whether `TableStore::get_head_locked` guards the removal of `tables[1..]` by a comparison of the\n"
-        "    head's name with the merged table's name (the repair of F8). -/\n"
-        "namespace JjModel.Generated\n\n"
-        f"def tableGuardEq : Bool := {'true' if guarded else 'false'}\n\n"
-        "end JjModel.Generated\n")
-    return "TableGuard.lean", text
-
-
-# C14: structural facts of the op-heads store the model assumes (no generated definitions needed,
-# only the check that the patterns are still there).
-def check_opheads():
-    src = read("lib/src/simple_op_heads_store.rs")
-    body = fn_body(src, r"async fn update_op_heads\s*\(", "update_op_heads")
-    a, r_ = body.find("self.add_op_head("), body.find("self.remove_op_head(")
-    require(0 <= a < r_, "update_op_heads: `add_op_head` no longer precedes `remove_op_head`")
-    require(re.search(r"if\s+old_id\s*==\s*new_id\s*\{\s*continue;\s*\}", body),
-            "update_op_heads: guard `if old_id == new_id { continue; }` not found")
-    return None
-
-
-
-CUSTOM = [gen_table_guard, check_opheads]
-
-_OPS = {ast.LShift: lambda a, b: a << b, ast.RShift: lambda a, b: a >> b, ast.Mult: lambda a, b: a * b,
-        ast.Add: lambda a, b: a + b, ast.Sub: lambda a, b: a - b}
-
-def const_eval(expr):
-    e = re.sub(r"(?<=[0-9a-fA-F])_(?=[0-9a-fA-F])", "", expr.strip())
-    e = re.sub(r"\b((?:0x[0-9a-fA-F]+)|(?:[0-9]+))(?:u8|u16|u32|u64|usize|i32|i64|isize)\b", r"\1", e)
-    def ev(n):
-        if isinstance(n, ast.Expression):
-            return ev(n.body)
-        if isinstance(n, ast.Constant) and isinstance(n.value, int) and not isinstance(n.value, bool):
-            return n.value
-        if isinstance(n, ast.BinOp) and type(n.op) in _OPS:
-            return _OPS[type(n.op)](ev(n.left), ev(n.right))
-        raise ValueError(f"unsupported constant expression: {expr!r}")
-    return ev(ast.parse(e, mode="eval"))
-
-def pest_rule(src, name):
-    """text of pest rule `name` (up to the next rule / comment / blank line), whitespace-normalised"""
-    m = re.search(r"^" + re.escape(name) + r"\s*=.*?(?=^\w+\s*=|^//|^\s*$|\Z)", src, re.S | re.M)
-    return None if m is None else " ".join(m.group(0).split())
 
 def write_if_changed(path, text):
     try:
@@ -157,79 +24,27 @@ def write_if_changed(path, text):
         f.write(text)
     return True
 
+
 def main():
-    errors, modules = [], {}
-    for file, rx, name, ty, module in TABLE:
-        path = os.path.join(REPO, file)
+    parts_dir = os.path.join(ROOT, "translate_parts")
+    problems = []
+    for fn in sorted(os.listdir(parts_dir)) if os.path.isdir(parts_dir) else []:
+        if not fn.endswith(".py") or fn.startswith("_"):
+            continue
+        spec = importlib.util.spec_from_file_location("translate_part_" + fn[:-3], os.path.join(parts_dir, fn))
+        mod = importlib.util.module_from_spec(spec)
         try:
-            src = open(path).read()
-        except OSError as e:
-            errors.append(f"{file}: cannot read ({e})")
-            continue
-        ms = re.findall(rx, src)
-        if len(ms) != 1:
-            errors.append(f"{file}: pattern for {name} matched {len(ms)} times (expected 1): {rx}")
-            continue
-        try:
-            val = const_eval(ms[0])
-        except (ValueError, SyntaxError) as e:
-            errors.append(f"{file}: {name}: {e}")
-            continue
-        if ty == "Nat" and val < 0:
-            errors.append(f"{file}: {name}: negative value {val} for Nat")
-            continue
-        modules.setdefault(module, []).append((file, ms[0].strip(), name, ty, val))
-    texts = {}
-    for rules, files, name, module in SAME_RULES:
-        per_file = {}
-        for file in files:
-            try:
-                src = open(os.path.join(REPO, file)).read()
-            except OSError as e:
-                errors.append(f"{file}: cannot read ({e})")
-                continue
-            got = [pest_rule(src, r) for r in rules]
-            if None in got:
-                errors.append(f"{file}: rule(s) missing: {[r for r, g in zip(rules, got) if g is None]}")
-                continue
-            per_file[file] = "\n".join(got)
-        if len(per_file) == len(files):
-            if len(set(per_file.values())) != 1:
-                errors.append(f"rules {rules} differ between {files}: the shared model {name} no longer stands for all of them")
-            else:
-                texts.setdefault(module, []).append((files, name, per_file[files[0]]))
-    custom_out = []
-    for g in CUSTOM:
-        try:
-            r = g()
-        except PatternVanished as e:
-            errors.append(f"{g.__name__}: source pattern vanished — {e}")
-            continue
-        if r:
-            custom_out.append(r)
-    if errors:
-        for e in errors:
-            print("translate: ERROR " + e)
-        return 1
-    for name, text in custom_out:
-        changed = write_if_changed(os.path.join(ROOT, name), text)
-        print(f"translate: {name} {'updated' if changed else 'unchanged'} (structural)")
-    for module, entries in sorted(modules.items()):
-        lines = ["-- GENERATED by tools/translate.py from the jj source — do not edit", "namespace JjModel.Generated", ""]
-        for file, expr, name, ty, val in entries:
-            lines += [f"/-- `{file}`: `{expr}` -/", f"def {name} : {ty} := {val}", ""]
-        lines += ["end JjModel.Generated", ""]
-        changed = write_if_changed(os.path.join(ROOT, module + ".lean"), "\n".join(lines))
-        print(f"translate: {module}.lean {'updated' if changed else 'unchanged'} ({len(entries)} constant(s))")
-    for module, entries in sorted(texts.items()):
-        lines = ["-- GENERATED by tools/translate.py from the jj source — do not edit", "namespace JjModel.Generated", ""]
-        for files, name, text in entries:
-            lit = text.replace("\\", "\\\\").replace('"', '\\"').replace("\n", "\\n")
-            lines += [f"/-- rule text shared verbatim by {', '.join('`' + f + '`' for f in files)} -/", f'def {name} : String := "{lit}"', ""]
-        lines += ["end JjModel.Generated", ""]
-        changed = write_if_changed(os.path.join(ROOT, module + ".lean"), "\n".join(lines))
-        print(f"translate: {module}.lean {'updated' if changed else 'unchanged'} ({len(entries)} shared rule group(s))")
-    return 0
+            spec.loader.exec_module(mod)
+            for p in mod.run(REPO, OUT, write_if_changed):
+                problems.append(f"{fn[:-3]}: {p}")
+        except Exception as e:  # a crashed part is a tie failure, not a silent skip
+            problems.append(f"{fn[:-3]}: translator crashed: {e!r}")
+    for p in problems:
+        print("translate: PROBLEM " + p)
+    if not problems:
+        print("translate: ok")
+    sys.exit(1 if problems else 0)
+
 
 if __name__ == "__main__":
-    sys.exit(main())
+    main()
